@@ -125,6 +125,7 @@ let () =
   let last_body : (int * int * int, int) Hashtbl.t = Hashtbl.create 64 in
   let nontrivial = ref false in
   let inval_seen = ref false in
+  let pending_call : (int * int * call_in * (key * res) option) option ref = ref None in   (* f, world index, input, asked_inv *)
   let stored_at : (int * int * int, int) Hashtbl.t = Hashtbl.create 64 in
   let used_at : (int * int * int, int) Hashtbl.t = Hashtbl.create 64 in
   let prev_inst : (int * int, winst) Hashtbl.t = Hashtbl.create 64 in       (* last snapshot of every instance *)
@@ -323,6 +324,86 @@ let () =
             if field "panic" = None && (m_exec <> exec || m_enc <> enc_v || m_inv <> invlog || m_cif <> ciflog) then
               set_verdict (Printf.sprintf "MISMATCH %d call f%d x=%d model={%s} impl={exec=%d enc=%d inv=%s cif=%s}"
                              !evidx f x !expect_r exec enc_v invlog ciflog))
+       | "callA", f :: x :: _tid :: ok :: v :: _len :: inv :: cif :: _ ->
+         let f = int_of_string f and x = int_of_string x in
+         let fn = fns.(f) in
+         let widx = Hashtbl.find !index (f, -1) in
+         let body = if ok = "ok" then ROk (n_of_int (int_of_string v)) else RErr (n_of_int (int_of_string v)) in
+         let field name = List.find_map (fun s -> let p = name ^ "=" in
+                                          if String.length s > String.length p && String.sub s 0 (String.length p) = p
+                                          then Some (String.sub s (String.length p) (String.length s - String.length p)) else None) rl in
+         let ci = { ci_key = n_of_int x; ci_body = body; ci_size = N0; ci_inv = inv = "1"; ci_cif = cif = "1"; ci_ch = [] } in
+         ignore fn;
+         let (w', res) = world_lookup !world (nat_of_int widx) now ci in
+         set_world w';
+         let show_asked = function None -> "-" | Some (k, r) -> Printf.sprintf "%d:%d" (int_of_n k) (int_of_n (enc r)) in
+         (match res, rl with
+          | Some (Some out, a), "callA" :: "done" :: _ ->
+            let exp = Printf.sprintf "exec=0 enc=%d inv=%s" (int_of_n (enc out.co_ret)) (show_asked a) in
+            let got = Printf.sprintf "exec=%s enc=%s inv=%s" (Option.value (field "exec") ~default:"?") (Option.value (field "enc") ~default:"?") (Option.value (field "inv") ~default:"?") in
+            if exp <> got then set_verdict (Printf.sprintf "MISMATCH %d callA f%d x=%d model={served %s} impl={%s}" !evidx f x exp got)
+          | Some (None, a), "callA" :: "pending" :: _ ->
+            pending_call := Some (f, widx, ci, a);
+            bump "suspended_calls";
+            if Option.value (field "held") ~default:"0" <> "0" then
+              fail "c20" (Printf.sprintf "f%d x=%d: the suspended call holds %s cache lock(s)" f x (Option.value (field "held") ~default:"?"));
+            if Option.value (field "exec") ~default:"0" <> "0" then
+              fail "c20" (Printf.sprintf "f%d x=%d: the body produced a result before the gate opened" f x);
+            if Option.value (field "inv") ~default:"-" <> show_asked a then
+              set_verdict (Printf.sprintf "MISMATCH %d callA f%d x=%d invalidate_on log model=%s impl=%s" !evidx f x (show_asked a) (Option.value (field "inv") ~default:"?"))
+          | Some (Some _, _), _ -> set_verdict (Printf.sprintf "MISMATCH %d callA f%d x=%d model=served impl=%s" !evidx f x !got_r)
+          | Some (None, _), _ -> set_verdict (Printf.sprintf "MISMATCH %d callA f%d x=%d model=suspended-before-body impl=%s" !evidx f x !got_r)
+          | None, _ -> set_verdict (Printf.sprintf "MISMATCH %d no-such-instance" !evidx))
+       | "callB", _ ->
+         (match !pending_call with
+          | None -> if rl <> ["callB"; "none"] then set_verdict (Printf.sprintf "MISMATCH %d callB: model has no suspended call, impl=%s" !evidx !got_r)
+          | Some _ when rl = ["callB"; "none"] -> set_verdict (Printf.sprintf "MISMATCH %d callB: model has a suspended call, the implementation none" !evidx)
+          | Some (f, widx, ci, a) ->
+            pending_call := None;
+            let field name = List.find_map (fun s -> let p = name ^ "=" in
+                                             if String.length s > String.length p && String.sub s 0 (String.length p) = p
+                                             then Some (String.sub s (String.length p) (String.length s - String.length p)) else None) rl in
+            (match field "panic" with Some m -> set_verdict (Printf.sprintf "PANIC %d %s" !evidx m) | None -> ());
+            let size = int_of_string (Option.value (field "size") ~default:"0") in
+            let fn = fns.(f) in
+            let x = int_of_n ci.ci_key in
+            let pre_e = List.nth !world widx in
+            let pre_keys = List.map (fun (k, _) -> int_of_n k) pre_e.ce_st.st_store in
+            let post_keys = (match List.find_opt (fun wi -> wi.wf = f && wi.wtid = -1) instances with
+                | Some wi -> List.map fst wi.wstore | None -> []) in
+            let removed = List.filter (fun k -> not (List.mem k post_keys)) (if List.mem x pre_keys then pre_keys else x :: pre_keys) in
+            let cands = if fn.w.w_cfg.pol = Random && List.length removed <= 5 then perms removed else [[]] in
+            let run ch = world_finish !world (nat_of_int widx) now { ci with ci_size = n_of_int size; ci_ch = List.map n_of_int ch } a in
+            let matches_impl (w', _) =
+              match List.find_opt (fun wi -> wi.wf = f && wi.wtid = -1) instances with
+              | None -> true
+              | Some wi -> let e = List.nth w' widx in let (mq, mst, _, _) = inst_of_state e.ce_st in mq = wi.wq && mst = wi.wstore in
+            let results = List.map run cands in
+            let (w', co) = (match List.find_opt matches_impl results with Some r -> r | None -> List.hd results) in
+            set_world w';
+            nontrivial := true; bump "resumed_calls";
+            (match co with
+             | None -> set_verdict (Printf.sprintf "MISMATCH %d no-such-instance" !evidx)
+             | Some co ->
+               let show_asked = function None -> "-" | Some (k, r) -> Printf.sprintf "%d:%d" (int_of_n k) (int_of_n (enc r)) in
+               let exp = Printf.sprintf "exec=1 enc=%d inv=%s cif=%s" (int_of_n (enc co.co_ret)) (show_asked co.co_inv_asked) (show_asked co.co_cif_asked) in
+               let got = Printf.sprintf "exec=%s enc=%s inv=%s cif=%s" (Option.value (field "exec") ~default:"?") (Option.value (field "enc") ~default:"?")
+                   (Option.value (field "inv") ~default:"?") (Option.value (field "cif") ~default:"?") in
+               if field "panic" = None && exp <> got then
+                 set_verdict (Printf.sprintf "MISMATCH %d callB f%d x=%d model={%s} impl={%s}" !evidx f x exp got);
+               if has "c20" && field "panic" = None && Option.value (field "enc") ~default:"" <> string_of_int (int_of_n (enc ci.ci_body)) then
+                 fail "c20" (Printf.sprintf "f%d x=%d: the resumed call returned %s, its body's result is %d" f x (Option.value (field "enc") ~default:"?") (int_of_n (enc ci.ci_body)))))
+       | "callD", _ ->
+         (match !pending_call with
+          | Some (f, _, ci, _) ->
+            pending_call := None; nontrivial := true; bump "dropped_calls";
+            (* implementation-side oracle: a dropped call leaves no entry for a result it never produced *)
+            if has "c20" then
+              (match List.find_opt (fun wi -> wi.wf = f && wi.wtid = -1) instances, Hashtbl.find_opt prev_inst (f, -1) with
+               | Some wi, Some p when wi.wstore <> p.wstore || wi.wq <> p.wq ->
+                 fail "c20" (Printf.sprintf "f%d: dropping the suspended call for x=%d changed the cache" f (int_of_n ci.ci_key))
+               | _ -> ())
+          | None -> if rl <> ["callD"; "none"] then set_verdict (Printf.sprintf "MISMATCH %d callD: model has no suspended call, impl=%s" !evidx !got_r))
        | ("tag" | "event" | "dep"), name :: _ ->
          let t = (match kind with "tag" -> ByTag | "event" -> ByEvent | _ -> ByDep) in
          let (w', n) = invalidate_by t (n_of_int (intern name)) !world in
@@ -430,12 +511,14 @@ let () =
          let (w, ix) = build_world fns in
          world := w; index := ix; verdict := None; evidx := 0; skip := false; fails := [];
          Hashtbl.reset seen_calls; Hashtbl.reset last_body; nontrivial := false;
-         Hashtbl.reset prev_inst; Hashtbl.reset exp_stats; inval_seen := false; Hashtbl.reset stored_at; Hashtbl.reset used_at;
+         Hashtbl.reset prev_inst; Hashtbl.reset exp_stats; inval_seen := false; pending_call := None; Hashtbl.reset stored_at; Hashtbl.reset used_at;
          ev := []; rline := []; ws := []
        | "E" :: rest -> ev := rest
        | "R" :: rest -> rline := (match rest with "call" :: r -> r | r -> r)
        | "W" :: _ -> ws := parse_w line :: !ws
        | "T" :: _ -> skip := true; bump "timing_discards"
+       | "X" :: "blocked" :: _ ->
+         set_verdict "BLOCKED"; fails := ("c20", !evidx + 1, "an operation did not return while a call was suspended (or ever)") :: !fails
        | "X" :: _ -> set_verdict "CRASH"
        | ["Z"] -> if not !skip then process_event () else (ev := []; rline := []; ws := [])
        | ["END"] ->
